@@ -185,24 +185,24 @@ func floor(s *slip.Scope, f slip.Object, args slip.List, depth int) slip.Values 
 		case 1:
 			if d.Sign() == 1 {
 				q = (*slip.Bignum)(&bi)
-				r = (*slip.Ratio)(&zr)
+				r = ratReduce(&zr)
 			} else {
 				_ = bi.Sub(&bi, big.NewInt(1))
 				q = (*slip.Bignum)(&bi)
 				_ = zb.SetInt(&bi)
 				_ = zp.Mul(&zb, d)
 				_ = zr.Sub((*big.Rat)(tn), &zp)
-				r = (*slip.Ratio)(&zr)
+				r = ratReduce(&zr)
 			}
 		case -1:
 			if d.Sign() == 1 {
 				q = (*slip.Bignum)(bi.Sub(&bi, big.NewInt(1)))
 				_ = zb.SetInt(&bi)
 				_ = zp.Mul(&zb, d)
-				r = (*slip.Ratio)(zr.Sub((*big.Rat)(tn), &zp))
+				r = ratReduce(zr.Sub((*big.Rat)(tn), &zp))
 			} else {
 				q = (*slip.Bignum)(&bi)
-				r = (*slip.Ratio)(&zr)
+				r = ratReduce(&zr)
 			}
 		}
 		q = bigToInteger((*big.Int)(q.(*slip.Bignum)))
